@@ -100,6 +100,8 @@ func (o op) String() string {
 		return fmt.Sprintf("voteBP(u%d,%s)", o.from, strings.Join(cs, "+"))
 	case "votedao":
 		return fmt.Sprintf("voteDAO(u%d,%s=%s)", o.from, o.issue, o.cands[0])
+	case "unknown-cmd":
+		return fmt.Sprintf("unknownCommand(u%d,%s)", o.from, o.name)
 	case "name-create":
 		return fmt.Sprintf("createName(u%d,%s,%s)", o.from, o.name, new(big.Int).Div(o.amount, vnode.Aergo))
 	case "name-update":
@@ -132,6 +134,9 @@ func (o op) tx(nonce uint64, cidHash []byte) *types.Tx {
 		s.Recipient, s.Payload = []byte(types.AergoSystem), callInfo("v1voteBP", args...)
 	case "votedao":
 		s.Recipient, s.Payload = []byte(types.AergoSystem), callInfo("v1voteDAO", o.issue, o.cands[0])
+	case "unknown-cmd":
+		// a command the system contract does not have
+		s.Recipient, s.Payload = []byte(types.AergoSystem), callInfo(o.name)
 	case "name-create":
 		s.Recipient, s.Payload, s.Amount = []byte(types.AergoName), callInfo("v1createName", o.name), o.amount
 	case "name-update":
@@ -212,6 +217,8 @@ func (m *model) expect(o op, now uint64, ver int32) bool {
 		}
 		m.names[o.name] = o.to
 		return true
+	case "unknown-cmd":
+		return false // not a command of the system contract
 	}
 	return true
 }
@@ -277,7 +284,7 @@ func TestC15Governance(t *testing.T) {
 			for k := 0; k < ntx; k++ {
 				o := op{from: rapid.IntRange(0, nusers-1).Draw(t, "from")}
 				a := m.a(o.from)
-				kinds := []string{"stake", "stake", "unstake", "unstake", "votebp", "votebp", "votebp", "votedao", "votedao", "name-create", "name-update", "transfer"}
+				kinds := []string{"stake", "stake", "unstake", "unstake", "votebp", "votebp", "votebp", "votedao", "votedao", "name-create", "name-update", "transfer", "unknown-cmd"}
 				if rapid.IntRange(0, 9).Draw(t, "purposeful") < 7 {
 					// purposeful mode: prefer the operation that can make progress from the model state
 					unlocked := !a.everStaked || a.when+delay <= now
@@ -332,6 +339,8 @@ func TestC15Governance(t *testing.T) {
 					default:
 						o.cands = []string{vnode.Aergo.String()}
 					}
+				case "unknown-cmd":
+					o.name = rapid.SampledFrom([]string{"v1Stake", "v1voteBp", "v2stake", "v1unknown", "stake", ""}).Draw(t, "unknownName")
 				case "name-create":
 					o.name = fmt.Sprintf("name%08d", rapid.IntRange(0, 3).Draw(t, "nameIdx"))
 					o.amount = new(big.Int).Mul(big.NewInt(int64(rapid.SampledFrom([]int{1, 1, 1, 0, 2}).Draw(t, "nameAmt"))), vnode.Aergo)
@@ -377,6 +386,11 @@ func TestC15Governance(t *testing.T) {
 					t.Fatalf("block %d (height %d, v%d): %s panicked: %v\n%s\nhistory: %s", b, now, ver, o, out.Panic, out.Stack, strings.Join(hist, " | "))
 				}
 				got := out.Kind() == "success"
+				if o.kind == "unknown-cmd" && got && rec.IsKnown("unknown-system-command-runs-as-producer-vote") {
+					// known finding: executed as a producer vote without candidates (the model is not continued)
+					rec.Excluded("unknown-system-command-runs-as-producer-vote")
+					return
+				}
 				if got != want {
 					t.Fatalf("block %d (height %d, fork version %d): %s was %s (err %v) but by the governance rules it must be %s\nmodel of the sender: stake=%s last action at %d\nhistory: %s | %s",
 						b, now, ver, o, out.Kind(), out.Err, map[bool]string{true: "accepted", false: "refused"}[want], new(big.Int).Div(preStake, vnode.Aergo), a.when, strings.Join(hist, " | "), strings.Join(bdesc, ","))
